@@ -336,10 +336,11 @@ def standard_compare(res, cases, impl, model, check_sodium=True, check_spec=True
             if not (check_model and m == "panic" and c.meta.get("panic_ok")):
                 res.violations.append({"kind": "impl-" + i.split(" ")[0].split("(")[0], "line": c.line, "answers": answers, "why": "implementation panicked/aborted/internally inconsistent"})
                 bad = True
-        if check_spec and sp not in ("n/a", "bad-op") and i != sp and not bad:
+        ib = i.split(" buf=")[0]   # spec / libsodium answers never carry the caller buffer
+        if check_spec and sp not in ("n/a", "bad-op") and ib != sp and not bad:
             res.violations.append({"kind": "impl!=spec", "line": c.line, "answers": answers, "why": "implementation differs from the Lean specification"})
             bad = True
-        if check_sodium and s not in ("n/a",) and i != s and not bad:
+        if check_sodium and s not in ("n/a",) and ib != s and not bad:
             res.violations.append({"kind": "impl!=sodium", "line": c.line, "answers": answers, "why": "implementation differs from libsodium"})
             bad = True
         if c.expect is not None and not bad:
@@ -349,7 +350,7 @@ def standard_compare(res, cases, impl, model, check_sodium=True, check_spec=True
                 bad = True
         if check_model and m not in ("n/a",) and i != m:
             res.corr_breaks.append({"line": c.line, "answers": answers})
-        if sp not in ("n/a", "bad-op") and m not in ("n/a",) and m != sp:
+        if sp not in ("n/a", "bad-op") and m not in ("n/a",) and m.split(" buf=")[0] != sp:
             res.model_spec_breaks.append({"line": c.line, "answers": answers})
 
 
